@@ -198,3 +198,28 @@ def traceOk (h : Hist) : List Id → List (Id × Bool) → List (List Id) → Bo
   | _, _, _ => false
 
 end Spec.Rev
+
+namespace Spec.Rev
+open Model.Rev
+
+/-! ## C16: what identifiers may resolve to -/
+
+/-- `r` is the only revision whose id starts with `p` -/
+def uniquePrefix (h : Hist) (p : String) (r : Id) : Bool :=
+  r.startsWith p && (ids h).all (fun i => !(i.startsWith p) || i == r)
+
+/-- a plain identifier (no `@`, no offset, not symbolic) may resolve to `r` only if it is `r`'s
+    full id, the branch label `r` carries, or a prefix of `r`'s id and of no other revision id -/
+def plainResolveOk (h : Hist) (ident : String) (r : Id) : Bool :=
+  r ∈ ids h && (ident == r || ((revOf h r).map (fun x => decide (ident ∈ x.labels))).getD false || uniquePrefix h ident r)
+
+/-- there is a chain of exactly `n` down-revision links from `r` down to `a` (`a = none`: base,
+    i.e. the chain ends at a revision without down-revision after `n - 1` links) -/
+def stepsDown (h : Hist) : Nat → Id → Option Id → Bool
+  | 0, r, some a => r == a
+  | 0, _, none => false
+  | n + 1, r, a =>
+    (match a with | none => n == 0 && (downParents h r).isEmpty | some _ => false) ||
+    (downParents h r).any (fun p => stepsDown h n p a)
+
+end Spec.Rev
